@@ -704,6 +704,11 @@ def _ite_struct(ce, a, b):
             def pointwise(j):
                 # an index beyond the (concrete) length of one alternative can only be an element of the other one
                 la, lb = seq_len(sa), seq_len(sb)
+                # (an EMPTY concrete alternative has no element at all: any in-range index belongs to the other one)
+                if isinstance(la, int) and la == 0:
+                    return sb.get(j)
+                if isinstance(lb, int) and lb == 0:
+                    return sa.get(j)
                 if isinstance(j, int) and isinstance(la, int) and not 0 <= j < la:
                     return sb.get(j)
                 if isinstance(j, int) and isinstance(lb, int) and not 0 <= j < lb:
